@@ -2,12 +2,12 @@ SPECIFICATION InitOnly
 CONSTANTS
   Configs <- RealPbfConfigs
   Ns = {2, 3}
-  NestSets <- NestThorough
+  NestSets <- NestLive
   Bounds <- BoundsLive
   Pools = {FALSE, TRUE}
   Fds = {TRUE}
-  ScriptLen = 3
-  LongScripts = TRUE
+  ScriptLen = 0
+  LongScripts = FALSE
   FdStop = TRUE
   SkipAll = FALSE
 INVARIANT ExportCfg
